@@ -374,6 +374,42 @@ func wireVerify(p *balloon.MembershipProof, alts []malt, dv, histDigest, hyperDi
 }
 
 // sharePrefix returns a digest sharing exactly p leading bits with d.
+// independent reference of the history tree: hash of node (i,h) in the tree of version v over evs
+func refNode(evs [][]byte, v, i uint64, h uint16) []byte {
+	hs := hashing.NewSha256Hasher()
+	pos := make([]byte, 10)
+	binary.BigEndian.PutUint64(pos, i)
+	binary.BigEndian.PutUint16(pos[8:], h)
+	if h == 0 {
+		return hs.Salted(pos, evs[i])
+	}
+	ri := i + 1<<(h-1)
+	l := refNode(evs, v, i, h-1)
+	if v < ri {
+		return hs.Salted(pos, l)
+	}
+	return hs.Salted(pos, l, refNode(evs, v, ri, h-1))
+}
+
+// the entries pruneToVerify(index, version) reads when index > version, as a forger who knows the log computes them
+func forgedHistory(evs [][]byte, index, version uint64) []malt {
+	var out []malt
+	i, h := uint64(0), uint16(bits.Len64(version))
+	for h > 0 {
+		ri := i + 1<<(h-1)
+		if index < ri {
+			if version >= ri {
+				out = append(out, malt{kind: "histadd", k: ri, h: h - 1, d: refNode(evs, version, ri, h-1)})
+			}
+		} else {
+			out = append(out, malt{kind: "histadd", k: i, h: h - 1, d: refNode(evs, version, i, h-1)})
+			i = ri
+		}
+		h--
+	}
+	return out
+}
+
 func sharePrefix(rng *cq.Rng, d []byte, p int) []byte {
 	x := rng.Bytes(len(d))
 	for i := 0; i < p && i < len(d)*8; i++ {
@@ -591,6 +627,27 @@ func balloonCmd(out *cq.Out, seed uint64, tier string) {
 						variants = append(variants, []malt{{kind: "hyperentry", k: uint64(rng.Intn(ny))}}, []malt{{kind: "hyperdrop", k: uint64(rng.Intn(ny))}},
 							[]malt{{kind: "hyperset", k: uint64(rng.Intn(ny)), d: rng.Bytes(32)}})
 					}
+					try := func(alts []malt, dv []byte, hx, yx uint64) {
+						v, mr := wireVerify(o.proof, alts, dv, r.snaps[hx].HistoryDigest, r.snaps[yx].HyperDigest)
+						nv++
+						out.Count(fmt.Sprintf("adversarial_%s_verdict%d", alts[0].kind, v), 1)
+						var al []string
+						for _, a := range alts {
+							al = append(al, a.coq())
+						}
+						obs := v
+						if obs == 2 {
+							obs = 1
+						}
+						steps = append(steps, fmt.Sprintf("SVerify %s %s %s %s %s %s %s", cq.Bytes(d), optN(&qv), cq.List(al), cq.Bytes(dv), cq.N(hx), cq.N(yx), cq.N(uint64(obs))))
+						if v == 0 {
+							truth := mr.Exists && mr.ActualVersion <= mr.QueryVersion && mr.ActualVersion < uint64(len(r.events)) && bytes.Equal(r.events[mr.ActualVersion], dv)
+							if !truth {
+								out.Violate("C02:false-claim:"+alts[0].kind, fmt.Sprintf("verifier accepted a false membership claim: exists=%v actual=%d query=%d for digest %x.. (alterations %s of a genuine answer)", mr.Exists, mr.ActualVersion, mr.QueryVersion, dv[:4], strings.Join(al, ",")),
+									map[string]interface{}{"case": ci, "seed": seed, "plan": strings.Join(plan, ","), "alterations": al, "digest": hex.EncodeToString(dv), "hist_snapshot": hx, "hyper_snapshot": yx})
+							}
+						}
+					}
 					for _, alts := range variants {
 						// digest verified: the genuine one, or a never-added neighbour, or another event
 						for _, dv := range [][]byte{d, near, other} {
@@ -602,26 +659,23 @@ func balloonCmd(out *cq.Out, seed uint64, tier string) {
 							if rng.Intn(4) == 0 {
 								yx = uint64(rng.Intn(len(r.events)))
 							}
-							v, mr := wireVerify(o.proof, alts, dv, r.snaps[hx].HistoryDigest, r.snaps[yx].HyperDigest)
-							nv++
-							out.Count(fmt.Sprintf("adversarial_%s_verdict%d", alts[0].kind, v), 1)
-							var al []string
-							for _, a := range alts {
-								al = append(al, a.coq())
-							}
-							obs := v
-							if obs == 2 {
-								obs = 1
-							}
-							steps = append(steps, fmt.Sprintf("SVerify %s %s %s %s %s %s %s", cq.Bytes(d), optN(&qv), cq.List(al), cq.Bytes(dv), cq.N(hx), cq.N(yx), cq.N(uint64(obs))))
-							if v == 0 {
-								truth := mr.Exists && mr.ActualVersion <= mr.QueryVersion && mr.ActualVersion < uint64(len(r.events)) && bytes.Equal(r.events[mr.ActualVersion], dv)
-								if !truth {
-									out.Violate("C02:false-claim:"+alts[0].kind, fmt.Sprintf("verifier accepted a false membership claim: exists=%v actual=%d query=%d for digest %x.. (alterations %s of a genuine answer)", mr.Exists, mr.ActualVersion, mr.QueryVersion, dv[:4], strings.Join(al, ",")),
-										map[string]interface{}{"case": ci, "seed": seed, "plan": strings.Join(plan, ","), "alterations": al, "digest": hex.EncodeToString(dv), "hist_snapshot": hx, "hyper_snapshot": yx})
-								}
-							}
+							try(alts, dv, hx, yx)
 						}
+					}
+					// a forger who knows the whole log: the claim "exists, inserted at version rep" for a NEVER-ADDED digest that
+					// shares all but its last bit with the event really inserted there, on a query at an EARLIER version q2 whose
+					// tree has room for index rep. pruneToVerify(rep, q2) turns right at a partial node and discards the branch
+					// holding the leaf, so the recomputed root depends on audit-path entries only - all of which the forger can
+					// compute. Only the version guard (actual <= query) stands between this answer and acceptance.
+					if lo := uint64(1) << uint(bits.Len64(rep)-1); rep >= 1 && rep > lo {
+						q2 := lo + uint64(rng.Intn(int(rep-lo)))
+						forged := []malt{{kind: "query", k: q2}, {kind: "histclear"}}
+						forged = append(forged, forgedHistory(r.events, rep, q2)...)
+						fake := sharePrefix(rng, d, 255)
+						forged = append(forged, malt{kind: "key", d: fake})
+						try(forged, fake, q2, cur)
+						try(forged[:len(forged)-1], d, q2, cur)
+						out.Count("forged_later_version_answers", 2)
 					}
 				}
 			}
